@@ -55,6 +55,19 @@ type Gateway struct {
 var upgrader = websocket.Upgrader{}
 var c = cache.New(5*time.Minute, 10*time.Minute)
 
+func init() {
+	c.OnEvicted(closeParked)
+}
+
+// closeParked closes the outgoing connection of a tunnel that leaves the cache
+// without ever having got its incoming connection: no handler owns it, nothing
+// else would close it
+func closeParked(_ string, v interface{}) {
+	if t, ok := v.(*Tunnel); ok && t != nil && t.transportIn == nil && t.transportOut != nil {
+		t.transportOut.Close()
+	}
+}
+
 func (g *Gateway) HandleGatewayProtocol(w http.ResponseWriter, r *http.Request) {
 	connectionCache.Set(float64(c.ItemCount()))
 
